@@ -147,7 +147,7 @@ def fixed_ids(j, out=None):
     return out
 
 
-def evaluate(dic, cmd, cfg, emitted, with_constraints=None):
+def evaluate(dic, cmd, cfg, emitted, with_constraints=None, reload=None):
     """-> list of (signature, what) failures of the property on this loaded configuration"""
     import torch
 
@@ -167,6 +167,20 @@ def evaluate(dic, cmd, cfg, emitted, with_constraints=None):
         if hasattr(p, "tensor") and type(p).__name__ == "Parameter" and p.tensor.is_floating_point():
             p.requires_grad = True
             params.append(p)
+    # ---- dtype regime: torchtree runs with float64 as default; what the sampler moves must be float64
+    for i, o in dic.items():
+        if type(o).__name__ == "Parameter" and i in moved and o.tensor.dtype != torch.float64:
+            fails.append((f"eval:dtype:{i}", f"`{i}` is moved by the sampler but is {o.tensor.dtype} under torchtree's float64 default"))
+    snapshot = {i: o.tensor.detach().clone() for i, o in dic.items() if type(o).__name__ == "Parameter"}
+    # ---- grad modes: a fresh load evaluated under no_grad must give bitwise the same density
+    v_nograd = None
+    if reload is not None:
+        try:
+            dicA = reload()
+            with torch.no_grad():
+                v_nograd = dicA[target_id]().detach().clone()
+        except Exception:  # noqa: BLE001  (reported by the main evaluation below)
+            v_nograd = None
     try:
         lp = target()
     except Exception as e:  # noqa: BLE001
@@ -197,6 +211,38 @@ def evaluate(dic, cmd, cfg, emitted, with_constraints=None):
     except Exception as e:  # noqa: BLE001
         tb = traceback.extract_tb(e.__traceback__)[-1]
         fails.append((f"eval:gradient-raises:{type(e).__name__}:{tb.name}", f"backward() raised {type(e).__name__}: {str(e)[:120]}"))
+    if v_nograd is not None and not torch.equal(v_nograd, lp.detach()) and not (torch.isnan(v_nograd).all() and torch.isnan(lp).all()):
+        fails.append(("eval:grad-mode-changes-density",
+                      f"{target_id} = {v_nograd.tolist()!r} under no_grad on a fresh load, {lp.detach().tolist()!r} with the moved "
+                      f"parameters requiring grad"))
+    # ---- input immutability: evaluation and backward leave every Parameter as it was loaded
+    for i, t0 in snapshot.items():
+        if not torch.equal(dic[i].tensor.detach(), t0):
+            fails.append((f"eval:input-mutated:{i}", f"`{i}` changed from {t0.tolist()} to {dic[i].tensor.detach().tolist()} by evaluating"))
+            break
+    # ---- history: same call twice; then update one moved parameter and compare with a fresh load given the same value
+    try:
+        with torch.no_grad():
+            again = target()
+        if not torch.equal(again.detach(), lp.detach()):
+            fails.append(("eval:second-evaluation-differs", f"{lp.tolist()} then {again.tolist()}"))
+        if reload is not None:
+            for p in params[:2]:
+                new = p.tensor.detach().clone() + 0.03125
+                with torch.no_grad():
+                    p.tensor = new
+                    got = target().detach().clone()
+                    dicB = reload()
+                    dicB[p.id].tensor = new.clone()
+                    want = dicB[target_id]().detach()
+                    p.tensor = snapshot[p.id].clone()
+                    target()
+                if got.shape != want.shape or not torch.allclose(got, want, rtol=1e-12, atol=1e-12, equal_nan=True):
+                    fails.append((f"eval:stale-after-update:{p.id}",
+                                  f"after updating `{p.id}` the target is {got.tolist()!r}; a fresh load with that value gives {want.tolist()!r}"))
+    except Exception as e:  # noqa: BLE001
+        tb = traceback.extract_tb(e.__traceback__)[-1]
+        fails.append((f"eval:history-raises:{type(e).__name__}:{tb.name}", f"{type(e).__name__}: {str(e)[:120]}"))
     # ---- the density identity
     if cmd != "map" and "joint" in dic:
         listed = list(dic["joint.jacobian"]._distributions.callables())[1:]
@@ -436,6 +482,136 @@ def check_init(dic, cfg):
     return fails
 
 
+NO_EFFECT_OK = {("--warmup", "0"), ("--date_regex",), ("--frequencies", "equal")}
+
+
+def day_fraction(ymd):
+    y, m, d = (int(x) for x in ymd.split("-"))
+    days = (31, 29 if y % 4 == 0 else 28, 31, 30, 31, 30, 31, 31, 30, 31, 30, 31)
+    return y + (sum(days[:m - 1]) + d - 1) / sum(days)
+
+
+def find_all(j, pred, out=None):
+    out = [] if out is None else out
+    if isinstance(j, list):
+        for x in j:
+            find_all(x, pred, out)
+    elif isinstance(j, dict):
+        if pred(j):
+            out.append(j)
+        for v in j.values():
+            find_all(v, pred, out)
+    return out
+
+
+def check_extra(C, cfg, emitted, dic, data):
+    """the single-option slice: the option must be observable in what is emitted / loaded"""
+    extra = cfg.get("extra")
+    if not extra:
+        return []
+    fails = []
+    opts = dict(zip(extra[::2], extra[1::2])) if len(extra) % 2 == 0 else {extra[0]: None}
+    # (1) an option that changes nothing at all is ignored
+    base = {k: v for k, v in cfg.items() if k != "extra"}
+    try:
+        with contextlib.redirect_stdout(io.StringIO()), contextlib.redirect_stderr(io.StringIO()):
+            base_emitted = C.run_cli(S.to_argv(base, data), record=False)[0]
+        same = json.dumps(base_emitted, sort_keys=True) == json.dumps(emitted, sort_keys=True)
+    except Exception:  # noqa: BLE001
+        same = False
+    if tuple(extra) in NO_EFFECT_OK or (extra[0],) in NO_EFFECT_OK:
+        pass
+    elif same and len(extra) <= 2:
+        fails.append((f"cli:option-ignored:{extra[0]}", f"the documented option {extra[0]} changes nothing in the emitted file"))
+        return fails
+    elif len(extra) > 2 and len(extra) % 2 == 0:
+        # several options given together: leave one out at a time
+        full = json.dumps(emitted, sort_keys=True)
+        for i in range(0, len(extra), 2):
+            rest = extra[:i] + extra[i + 2:]
+            try:
+                with contextlib.redirect_stdout(io.StringIO()), contextlib.redirect_stderr(io.StringIO()):
+                    e1 = C.run_cli(S.to_argv(dict(base, extra=rest), data), record=False)[0]
+                if json.dumps(e1, sort_keys=True) == full:
+                    fails.append((f"cli:option-ignored:{extra[i]}",
+                                  f"the documented option {extra[i]} changes nothing in the emitted file"))
+            except Exception:  # noqa: BLE001
+                pass
+
+    def first(pred):
+        r = find_all(emitted, pred)
+        return r[0] if r else None
+
+    def expect(cond, opt, what):
+        if not cond:
+            fails.append((f"cli:option-not-honoured:{opt}", f"{opt} {opts.get(opt)}: {what}"))
+
+    if "--iter" in opts:
+        n = int(opts["--iter"])
+        el = first(lambda d: d.get("type") in ("MCMC", "Optimizer") and "iterations" in d)
+        if cfg["cmd"] == "advi" and n == 0:
+            expect(el is None, "--iter", "an optimiser is emitted although no iteration is requested")
+        else:
+            expect(el is not None and el.get("iterations") == n, "--iter", f"emitted iterations = {None if el is None else el.get('iterations')}")
+    if "--steps" in opts:
+        el = first(lambda d: d.get("type") == "LeapfrogIntegrator")
+        expect(el and el.get("steps") == int(opts["--steps"]) and el.get("step_size") == float(opts["--step_size"]),
+               "--steps", f"integrator = {el}")
+    if "--log_every" in opts:
+        el = first(lambda d: d.get("type") == "Logger" and "every" in d)
+        expect(el and el.get("every") == int(opts["--log_every"]), "--log_every", f"logger = {el and {k: el[k] for k in el if k != 'parameters'}}")
+    if "--stem" in opts and opts["--stem"] not in ("out",):
+        els = find_all(emitted, lambda d: "file_name" in d)
+        expect(els and all(str(e["file_name"]).startswith(opts["--stem"]) for e in els), "--stem", f"file names {[e['file_name'] for e in els]}")
+    if "--warmup" in opts:
+        el = first(lambda d: d.get("type") == "StanWindowedAdaptation")
+        expect((el is not None) == (int(opts["--warmup"]) > 0), "--warmup", f"adaptation = {el is not None}")
+        if el is not None:
+            expect(el.get("warmup") == int(opts["--warmup"]), "--warmup", f"adaptation warmup = {el.get('warmup')}")
+    if "--lr" in opts:
+        el = first(lambda d: d.get("type") == "Optimizer")
+        expect(el and el.get("options", {}).get("lr") == float(opts["--lr"]), "--lr", f"options = {el and el.get('options')}")
+    if "--max_iter" in opts:
+        el = first(lambda d: d.get("type") == "Optimizer")
+        expect(el and el.get("max_iter") == int(opts["--max_iter"]), "--max_iter", f"max_iter = {el and el.get('max_iter')}")
+    if "--samples" in opts:
+        el = first(lambda d: d.get("type") == "Sampler")
+        n = int(opts["--samples"])
+        expect((el is None) if n == 0 else (el is not None and el.get("samples") == n), "--samples", f"sampler = {el and el.get('samples')}")
+    if "--divergence" in opts:
+        expect(first(lambda d: d.get("type") == "KLpqImportance") is not None, "--divergence", "no KLpqImportance loss")
+    if "--elbo_samples" in opts:
+        el = first(lambda d: d.get("type") == "StanVariationalConvergence")
+        v = opts["--elbo_samples"]
+        want = [int(x) for x in v.split(",")] if "," in v else int(v)
+        expect((el is None) if want == 0 else (el is not None and el.get("samples") == want), "--elbo_samples",
+               f"convergence samples = {el and el.get('samples')}")
+    if "--frequencies" in opts and "substmodel.frequencies" in dic:
+        got = dic["substmodel.frequencies"].tensor.detach().reshape(-1).tolist()
+        v = opts["--frequencies"]
+        if v == "equal":
+            want = [0.25] * 4
+        elif v == "empirical":
+            cnt = [sum(s_.count(c) for s_ in C.SEQS.values()) for c in "ACGT"]
+            want = [c / sum(cnt) for c in cnt]
+        else:
+            want = [float(x) for x in v.split(",")]
+        expect(len(got) == 4 and all(close(a, b, 1e-5) for a, b in zip(got, want)), "--frequencies", f"frequencies {got}, expected {want}")
+    if "--dates" in opts or "--date_format" in opts:
+        taxa = dic.get("taxa")
+        if taxa is not None:
+            got = {t.id: t["date"] for t in taxa}
+            if opts.get("--dates") == "0":
+                want = {k: 0.0 for k in got}
+            elif "--date_format" in opts:
+                want = {k.rsplit("_", 1)[0] + "_" + C.YMD[k]: day_fraction(C.YMD[k]) for k in C.SEQS}
+            else:
+                want = {k: float(k.rsplit("_", 1)[1]) + C.CSV_SHIFT for k in C.SEQS}
+            expect(set(got) == set(want) and all(close(got[k], want[k], 1e-9) for k in want), "--dates" if "--dates" in opts else "--date_format",
+                   f"taxon dates {got}, expected {want}")
+    return fails
+
+
 # ---------------------------------------------------------------------- one configuration
 def run_config(C, cfg, data):
     """-> (outcome class, [(signature, what)], records, extra)"""
@@ -470,7 +646,8 @@ def _run_config(C, cfg, data):
         return "load-fails", [("load:" + e.signature(), f"the emitted file is rejected by torchtree: {e.exc}: {(e.logged[0] if e.logged else e.msg)[:160]}")], recs, None
     try:
         with contextlib.redirect_stdout(io.StringIO()), contextlib.redirect_stderr(io.StringIO()):
-            fails = evaluate(dic, cfg["cmd"], cfg, emitted, with_constraints)
+            fails = evaluate(dic, cfg["cmd"], cfg, emitted, with_constraints, reload=lambda: C.dry_load(text)[0])
+            fails += check_extra(C, cfg, emitted, dic, data)
     except Exception as e:  # noqa: BLE001
         tb = traceback.extract_tb(e.__traceback__)[-1]
         fails = [(f"eval:harness:{type(e).__name__}:{tb.name}", f"evaluation raised {type(e).__name__}: {str(e)[:160]}")]
@@ -607,6 +784,8 @@ def configs(ck):
 
     for c in S.core_lite():
         add(c, "core-lite")
+    for c in S.single_options():
+        add(c, "single")
     for c in S.pairwise(ck.rng):
         add(c, "pairwise")
     if ck.thorough():
@@ -679,7 +858,7 @@ def run(ck: Check):
         for sig, lst in sorted(found.items()):
             lst.sort(key=lambda x: sum(1 for v in x[0].values() if v not in (None, False, 1, "JC69", "ratio", "meanfield", "Normal")))
             cfg, what = lst[0]
-            small = shrink_config(C, cfg, data, sig)
+            small = cfg if cfg.get("extra") else shrink_config(C, cfg, data, sig)
             _o, fails2, _r, _x = run_config(C, small, data)
             what = next((w for s2, w in fails2 if s2 == sig), what)
             argv = " ".join(S.to_argv(small, Path("DATA")))
